@@ -56,6 +56,10 @@ pub struct Plan {
     pub ops: Vec<Op>,
     pub final_datagrams: usize,
     pub close_code: u32,
+    /// the application accepts streams from the start but calls receive_datagram only after
+    /// the healthy streams have been checked (datagrams pile up unread meanwhile)
+    #[serde(default)]
+    pub lazy_datagrams: bool,
 }
 
 pub fn gen_plan(seed: u64, index: usize, _tier: Tier) -> Plan {
@@ -111,7 +115,8 @@ pub fn gen_plan(seed: u64, index: usize, _tier: Tier) -> Plan {
             finish: true,
         });
     }
-    for _ in 0..rng.usize(0, 3) {
+    let lazy_datagrams = rng.chance_pm(250);
+    for _ in 0..(if lazy_datagrams { rng.usize(2, 5) } else { rng.usize(0, 3) }) {
         ops.push(Op::Datagram { key: rng.next_u64(), len: rng.usize(4, 200) });
     }
     match rng.below(3) {
@@ -138,11 +143,14 @@ pub fn gen_plan(seed: u64, index: usize, _tier: Tier) -> Plan {
         ops: with_gaps,
         final_datagrams: rng.usize(1, 3),
         close_code: rng.next_u64() as u32,
+        lazy_datagrams,
     }
 }
 
 #[derive(Default)]
 struct AppState {
+    /// receive_datagram is only called once this is set
+    datagrams_wanted: bool,
     healthy_ids: BTreeSet<u64>,
     got_streams: BTreeMap<u64, Vec<u8>>,
     accepted: BTreeSet<u64>,
@@ -234,6 +242,9 @@ fn spawn_app(conn: Connection, st: Arc<Mutex<AppState>>) {
         });
     }
     tokio::spawn(async move {
+        while !st.lock().unwrap().datagrams_wanted {
+            tokio::time::sleep(Duration::from_millis(10)).await;
+        }
         loop {
             match conn.receive_datagram().await {
                 Ok(d) => st.lock().unwrap().datagrams.push(d.payload().to_vec()),
@@ -375,6 +386,7 @@ pub fn execute(plan: &Plan, trace: bool) -> Exec {
         *ns2.lock().unwrap() = Some(net.clone());
         let mut r = Rng::new(plan.seed, "c07-endpoints");
         let app: Arc<Mutex<AppState>> = Arc::new(Mutex::new(AppState::default()));
+        app.lock().unwrap().datagrams_wanted = !plan.lazy_datagrams;
         let raw_transport = || {
             let mut k = EpKnobs::default();
             k.max_bi = 100;
@@ -473,6 +485,7 @@ pub fn execute(plan: &Plan, trace: bool) -> Exec {
             }
         }
         // datagrams sent now (network quiet, no loss) must all arrive
+        app.lock().unwrap().datagrams_wanted = true;
         net.quiesce(Duration::from_millis(50), Duration::from_secs(2)).await;
         let mut sent_final = Vec::new();
         for i in 0..plan.final_datagrams {
@@ -549,6 +562,7 @@ pub fn execute(plan: &Plan, trace: bool) -> Exec {
         Some(Ok((problems, nh, ns))) => {
             ex.probe("healthy_streams", nh as u64);
             ex.fault("peer_stream_stalled", ns as u64);
+            ex.fault("datagrams_left_unread_runs", plan.lazy_datagrams as u64);
             ex.nontrivial = nh > 0 && ns > 0;
             if let Some((c, d)) = problems.into_iter().next() {
                 ex.violation(&c, d);
@@ -589,7 +603,7 @@ pub fn def() -> PropertyDef {
     PropertyDef {
         id: "C07",
         scenarios: vec![Box::new(Typed(C07Raw))],
-        rule: "Each run: a scripted raw QUIC peer (client role against the real server on even indexes, server role against the real client on odd ones) opens 1-40 stalled streams (uni/bidi; no byte, first byte of the 2-byte type, type without session id, first byte of a 2/4/8-byte session id, complete preamble then silence, complete preamble plus unread data; against the server also further complete or half-written CONNECT requests left open) interleaved in generated order with 1-5 healthy WebTransport streams (tagged payloads 0..5000 B), datagrams, quiescence points and sleeps; then datagrams on a quiet network and a close capsule. The application keeps accepting. Oracle (bounded liveness, no faults): every healthy stream accepted and read byte-exact within 30 s simulated, every late datagram received, all three pending calls report ApplicationClosed with the capsule's code within 30 s. Non-trivial = at least one stalled and one healthy stream in the run; distinct = distinct plan hashes.",
+        rule: "Each run: a scripted raw QUIC peer (client role against the real server on even indexes, server role against the real client on odd ones) opens 1-40 stalled streams (uni/bidi; no byte, first byte of the 2-byte type, type without session id, first byte of a 2/4/8-byte session id, complete preamble then silence, complete preamble plus unread data; against the server also further complete or half-written CONNECT requests left open) interleaved in generated order with 1-5 healthy WebTransport streams (tagged payloads 0..5000 B), datagrams, quiescence points and sleeps; then datagrams on a quiet network and a close capsule. The application keeps accepting streams; in a quarter of the runs it calls receive_datagram only after the healthy streams have been checked, so 2-5 datagrams sit unread meanwhile. Oracle (bounded liveness, no faults): every healthy stream accepted and read byte-exact within 30 s simulated, every late datagram received, all three pending calls report ApplicationClosed with the capsule's code within 30 s. Non-trivial = at least one stalled and one healthy stream in the run; distinct = distinct plan hashes.",
         assumptions: vec![
             "bounded liveness is judged on a fault-free simulated network after the script has finished",
             "the raw peer and reference codec are harness code (validated against RFC worked examples at start-up)",
